@@ -18,6 +18,10 @@ def class_functions(facts, cls_rec):
     return out
 
 
+MUTATORS = ('clear', 'swap', 'exchange', 'reset', 'assign', 'resize', 'insert', 'emplace', 'try_emplace',
+            'emplace_back', 'push_back', 'erase', 'clear_and_dispose', 'clone_from', 'operator=', 'swap_nodes')
+
+
 def _param_ids(fn):
     return {p.get('id') for p in fn.get('params', [])}
 
@@ -25,13 +29,14 @@ def _param_ids(fn):
 def mentions(fn):
     """Returns dict: this (fields mentioned on *this), src (fields read/written on a parameter object),
     srcw (fields of a parameter object written), bases (type strings mentioned), calls [(name, node)]."""
-    m = {'this': set(), 'src': set(), 'srcw': set(), 'bases': set(), 'calls': []}
+    m = {'this': set(), 'src': set(), 'srcw': set(), 'thisw': set(), 'bases': set(), 'calls': []}
     pids = _param_ids(fn)
     for i in fn.get('inits', []) or []:
         if not i.get('written'):
             continue
         if 'member' in i:
             m['this'].add(i['member'])
+            m['thisw'].add(i['member'])
         if 'base' in i:
             m['bases'].add(i.get('basec') or i['base'])
         for x in ir.walk(i.get('init')):
@@ -67,6 +72,15 @@ def _collect(x, m, pids):
                 r = ir.access_root(c[0])
                 if r and r[0] == 'var' and r[1] in pids:
                     m['srcw'].add(tt.get('n'))
+    if t is not None:
+        f = ir.this_field(t)
+        if f:
+            m['thisw'].add(f)
+    if ir.is_call(x) and ir.call_name(x) in MUTATORS:
+        for a in [ir.call_receiver(x)] + (list(ir.call_args(x)) if ir.call_name(x) in ('swap', 'exchange') else []):
+            f = ir.this_field(a) if a is not None else None
+            if f:
+                m['thisw'].add(f)
     if x.get('ct'):
         m['bases'].add(x['ct'])
     if x.get('qualT'):
@@ -151,13 +165,16 @@ def coverage(facts, cls_rec, fn, depth=2):
         for name, node in frontier:
             if not (ir.is_this_call(node) or name == 'swap'):
                 continue
-            for g in by_name.get(name, []):
+            cands = by_name.get(name, [])
+            nargs = len(ir.call_args(node))
+            exact = [g for g in cands if len(g.get('params', [])) == nargs]
+            for g in (exact or cands):
                 key = g['name'] + str(g['line'])
                 if key in seen or g['kind'] == 'dtor':
                     continue
                 seen.add(key)
                 m2 = mentions(g)
-                for k in ('this', 'src', 'srcw', 'bases'):
+                for k in ('this', 'src', 'srcw', 'thisw', 'bases'):
                     tot[k] |= m2[k]
                 nxt += m2['calls']
                 via.append(g['name'])
